@@ -1,5 +1,6 @@
 import Cutadapt.Properties.C06
 import Cutadapt.Proofs.StatsMerge
+import Cutadapt.Properties.C20
 /-! C06, second part (kept in a file of its own because `Cutadapt.Action` of the modifiers and `Runner.Action` of the protocol
     would clash): the merge operation of the protocol theorems instantiated with cutadapt's `Statistics.__iadd__`. -/
 namespace Cutadapt.C06
@@ -67,5 +68,67 @@ example :
     let b := summarize [.input 7 none, .sinkStat 3 7 none, .polyA 0 5, .filtered 1]
     (a.merge b).n = 2 ∧ (a.merge b).bp1 = 17 ∧ getCount 5 (a.merge b).polyA1 = 2 ∧ getCount 2 (b.merge a).filteredByStep = 1 ∧
     (a.merge b).written = 1 := by decide
+
+/-! ## Per-adapter statistics -/
+
+/-- two per-adapter statistics objects report the same figures -/
+structure AdapterStatsEq (s t : AdapterStats) : Prop where
+  rc : s.reverseComplemented = t.reverseComplemented
+  frontErrors : ∀ k, getCount k s.front.errors = getCount k t.front.errors
+  backErrors : ∀ k, getCount k s.back.errors = getCount k t.back.errors
+  backAdjacent : ∀ k, getCount k s.back.adjacent = getCount k t.back.adjacent
+  frontAdjacent : ∀ k, getCount k s.front.adjacent = getCount k t.front.adjacent
+
+theorem appliedTo_append (side a : Nat) (e1 e2 : List Event) : appliedTo side a (e1 ++ e2) = appliedTo side a e1 ++ appliedTo side a e2 := by
+  simp [appliedTo, List.filterMap_append]
+
+open Cutadapt.Steps in
+/-- **Per-adapter statistics of two chunks, merged position by position, are the per-adapter statistics of both chunks processed as one**
+    (`AdapterStatistics.__iadd__`: both ends' histograms, the adjacent bases, the reverse-complement counter) — for every adapter of the
+    list, every split of the event log. -/
+theorem merged_adapter_statistics (ads : List Matchable) (side : Nat) (e1 e2 : List Event) (a : Nat) (ad : Matchable)
+    (h : ads[a]? = some ad) :
+    ∃ s1 s2 s, (adapterStats ads side e1)[a]? = some s1 ∧ (adapterStats ads side e2)[a]? = some s2 ∧
+      (adapterStats ads side (e1 ++ e2))[a]? = some s ∧ AdapterStatsEq (s1.merge s2) s := by
+  obtain ⟨s1, h1, f1, b1, j1, z1, r1, _, _, _⟩ := C20.stats_are_tally ads side e1 a ad h
+  obtain ⟨s2, h2, f2, b2, j2, z2, r2, nf2, nb2, na2⟩ := C20.stats_are_tally ads side e2 a ad h
+  obtain ⟨s, h3, f3, b3, j3, z3, r3, _, _, _⟩ := C20.stats_are_tally ads side (e1 ++ e2) a ad h
+  refine ⟨s1, s2, s, h1, h2, h3, ?_, ?_, ?_, ?_, ?_⟩
+  · simp [AdapterStats.merge, r1, r2, r3, appliedTo_append]
+  · intro k
+    obtain ⟨len, e⟩ := k
+    simp only [AdapterStats.merge, EndStats.merge]
+    rw [getCount_mergeCounts _ _ _ nf2, f1, f2, f3, appliedTo_append]
+    simp
+  · intro k
+    obtain ⟨len, e⟩ := k
+    simp only [AdapterStats.merge, EndStats.merge]
+    rw [getCount_mergeCounts _ _ _ nb2, b1, b2, b3, appliedTo_append]
+    simp
+  · intro k
+    simp only [AdapterStats.merge, EndStats.merge]
+    rw [getCount_mergeCounts _ _ _ na2, j1, j2, j3, appliedTo_append]
+    simp
+  · intro k
+    simp [AdapterStats.merge, EndStats.merge, z1, z2, z3, mergeCounts, getCount]
+
+/-- … and `mergeAdapterStats` of two complete lists is that position-by-position merge (the lists of two workers are equally long:
+    one entry per adapter) -/
+theorem mergeAdapterStats_of_runs (ads : List Matchable) (side : Nat) (e1 e2 : List Event) (hne : ads ≠ []) :
+    mergeAdapterStats (adapterStats ads side e1) (adapterStats ads side e2)
+      = .ok (List.zipWith AdapterStats.merge (adapterStats ads side e1) (adapterStats ads side e2)) := by
+  have l1 := C20.stats_length ads side e1
+  have l2 := C20.stats_length ads side e2
+  have hpos : 0 < ads.length := List.length_pos_iff.mpr hne
+  unfold mergeAdapterStats
+  have n1 : (adapterStats ads side e1).isEmpty = false := by
+    cases hh : adapterStats ads side e1 with
+    | nil => rw [hh] at l1; simp at l1; omega
+    | cons _ _ => rfl
+  have n2 : (adapterStats ads side e2).isEmpty = false := by
+    cases hh : adapterStats ads side e2 with
+    | nil => rw [hh] at l2; simp at l2; omega
+    | cons _ _ => rfl
+  simp [n1, n2, l1, l2]
 
 end Cutadapt.C06
